@@ -293,7 +293,7 @@ func canonResult(v any, m *methodSpec, base string) (map[string]any, []int) {
 	rm := intList(mm["_mods"])
 	cp := map[string]any{}
 	for k, x := range mm {
-		if k != "_mods" {
+		if k != "_mods" && k != "_stamp" {
 			cp[k] = x
 		}
 	}
@@ -344,11 +344,27 @@ func sortListing(m map[string]any) {
 	}
 }
 
-func addMod(res any, id int) any {
+// inPlace: a result that IS a map is decorated in place — the usual way a middleware adds a field to the object it was
+// handed (`res["k"] = v; return res`); everything else is re-built.  Switched off for the rest of the run by the
+// shared-result phase when it finds a result object shared between requests (in-place writes to a shared map from 8
+// connections would kill the process with "concurrent map writes" before anything could be reported).
+var inPlace atomic.Bool
+
+func init() { inPlace.Store(true) }
+
+// addMod: the mark of a result-modifying stage (`_mods`) and a request-specific stamp (`_stamp` = the nonce of the request
+// the stage is working on).
+func addMod(res any, id int, nonce string) any {
 	if e, ok := res.(*mcp.JSONRPCError); ok && e != nil {
 		cp := *e
 		cp.Error.Data = append(intList(e.Error.Data), id)
 		return &cp
+	}
+	if m, ok := res.(map[string]any); ok && m != nil && inPlace.Load() {
+		l, _ := m["_mods"].([]any)
+		m["_mods"] = append(append([]any{}, l...), id)
+		m["_stamp"] = nonce
+		return m
 	}
 	b, err := json.Marshal(res)
 	if err != nil {
@@ -363,6 +379,7 @@ func addMod(res any, id int) any {
 		l = old
 	}
 	m["_mods"] = append(l, id)
+	m["_stamp"] = nonce
 	return m
 }
 
@@ -419,7 +436,7 @@ func (g *registry) middleware(id int) mcp.Middleware {
 				res, err := next(ctx, req)
 				after(res, err)
 				if err == nil {
-					res = addMod(res, id)
+					res = addMod(res, id, nonce)
 				}
 				return res, err
 			case "shortOk":
